@@ -98,6 +98,7 @@ structure W where
   me : Nat
   node : List Nat                 -- node of each instance
   instRunning : List Bool         -- instance seen RUNNING
+  instChecked : List Bool := []   -- instance seen CHECKED (its events are accepted; it is not a candidate yet)
   counter : List Nat              -- sequence counter per instance
   pcfg : List PCfg
   acfg : List ACfg
@@ -577,6 +578,81 @@ def stopperCheck (fuel : Nat) : M Unit := do
           failCommand fuel c.proc (some c.target) v.etime .stopped
     stopJobNext fuel j.app
   stopperNext fuel
+
+/-- `Context.on_process_state_event` / `on_process_disability_event` / `on_process_removed_event`: events are accepted from
+    CHECKED / RUNNING instances only -/
+def acceptsEvents (w : W) (i : Nat) : Bool := w.instRunning.getD i false || w.instChecked.getD i false
+
+/-- `ApplicationJobs.on_instances_invalidation` of a start job: the pending requests on a lost instance are dropped, each one
+    is a starting failure (`process_failure`), not a running failure; processes with a planned start are not running failures
+    either.  Returns the job and what is left of `failed_processes`. -/
+def startJobInvalidation (w : W) (lost : List Nat) (j : AppJobs) (failed : List Nat) : AppJobs × List Nat :=
+  let (j1, f1) := j.current.foldl (fun (acc : AppJobs × List Nat) c =>
+      if c.target.any (fun i => lost.contains i) then
+        (processFailure w { acc.1 with current := acc.1.current.filter (fun cc => !(cc.proc = c.proc ∧ cc.target = c.target)) } c.proc,
+         acc.2.filter (· ≠ c.proc))
+      else acc) (j, failed)
+  let plannedProcs := ((j1.planned.map (·.2)).flatten).map (·.proc)
+  (j1, f1.filter (fun p => !plannedProcs.contains p))
+
+/-- the same for a stop job (`process_failure` does nothing) -/
+def stopJobInvalidation (lost : List Nat) (j : StopJobs) (failed : List Nat) : StopJobs × List Nat :=
+  let gone := j.current.filter (fun c => lost.contains c.target)
+  let j1 := { j with current := j.current.filter (fun c => !lost.contains c.target) }
+  let f1 := failed.filter (fun p => !(gone.map (·.proc)).contains p)
+  let plannedProcs := ((j1.planned.map (·.2)).flatten).map (·.proc)
+  (j1, f1.filter (fun p => !plannedProcs.contains p))
+
+/-- `Commander.on_instances_invalidation` for the Starter: current jobs, then planned jobs, then `next` -/
+def starterInvalidation (fuel : Nat) (lost failed : List Nat) : M (List Nat) := do
+  let w ← get
+  let (cur, f1) := w.current.foldl (fun (acc : List AppJobs × List Nat) j =>
+      let (j', f') := startJobInvalidation w lost j acc.2; (acc.1 ++ [j'], f')) ([], failed)
+  let (pl, f2) := w.planned.foldl (fun (acc : List (Nat × List AppJobs) × List Nat) (kjs : Nat × List AppJobs) =>
+      let (js', f') := kjs.2.foldl (fun (a : List AppJobs × List Nat) j =>
+          let (j', f'') := startJobInvalidation w lost j a.2; (a.1 ++ [j'], f'')) ([], acc.2)
+      (acc.1 ++ [(kjs.1, js')], f')) ([], f1)
+  modify fun w => { w with current := cur, planned := pl }
+  starterNext fuel
+  return f2
+
+/-- `Commander.on_instances_invalidation` for the Stopper -/
+def stopperInvalidation (fuel : Nat) (lost failed : List Nat) : M (List Nat) := do
+  let w ← get
+  let (cur, f1) := w.scurrent.foldl (fun (acc : List StopJobs × List Nat) j =>
+      let (j', f') := stopJobInvalidation lost j acc.2; (acc.1 ++ [j'], f')) ([], failed)
+  let (pl, f2) := w.splanned.foldl (fun (acc : List (Nat × List StopJobs) × List Nat) (kjs : Nat × List StopJobs) =>
+      let (js', f') := kjs.2.foldl (fun (a : List StopJobs × List Nat) j =>
+          let (j', f'') := stopJobInvalidation lost j a.2; (a.1 ++ [j'], f'')) ([], acc.2)
+      (acc.1 ++ [(kjs.1, js')], f')) ([], f1)
+  modify fun w => { w with scurrent := cur, splanned := pl }
+  stopperNext fuel
+  return f2
+
+/-- `Context.invalidate_failed` for one lost instance, then `_MasterSlaveState._common_next`: the instance is not seen RUNNING
+    any more, every process running on it gets a FATAL report from it (`invalidate_identifier`), those left running nowhere
+    are the failed processes handed to the Starter and the Stopper.  Returns the failed processes the commanders left (for
+    the Master: the running failures handed to the failure handler). -/
+def loseInstance (fuel : Nat) (i : Nat) : M (List Nat) := do
+  let w ← get
+  let ps := List.range w.procs.length
+  -- status.running_processes(): the processes known on the instance that are running on it
+  let hit := ps.filter (fun p => let x := w.procs.getD p {}; (getInfo x.infos i).isSome && runningOn x i)
+  let procs' := ps.map (fun p => let x := w.procs.getD p {}
+    if hit.contains p then (match invalidateIdentifier x i w.now with | .ok y => y | .err _ => x) else x)
+  let failed := hit.filter (fun p => (procs'.getD p {}).running.isEmpty)
+  set { w with procs := procs', instRunning := w.instRunning.set i false, instChecked := w.instChecked.set i false }
+  let f1 ← starterInvalidation fuel [i] failed
+  stopperInvalidation fuel [i] f1
+
+/-- `Context.on_process_disability_event` -/
+def disableProcess (i p : Nat) (dis : Bool) : M Unit := do
+  let w ← get
+  if acceptsEvents w i then
+    let x := w.procs.getD p {}
+    match getInfo x.infos i with
+    | some v => setProc p { x with infos := setInfo x.infos i { v with disabled := dis } }
+    | none => pure ()
 
 /-- Stopper.restart_application -/
 def restartApplication (fuel : Nat) (a : Nat) (strat : Strategy) : M Unit := do
